@@ -305,6 +305,7 @@ def fam_debug_views(c, N, sz, with_invalid=False):
 
 # ---------------------------------------------------------------- wider capacities
 
+STEERED = set()       # capacities a changed source text points at (tools/check.py): always enumerated densely
 WIDE_E = [9, 10, 11, 12, 13, 15, 17, 31, 32, 33, 65, 100, 128, 255, 256, 257]
 WIDE_U8 = [9, 12, 15, 17, 32, 33, 100, 255, 256, 257, 4096]
 
@@ -398,6 +399,8 @@ def wide_cases(g, Ns, kind, elem="E", fault="none", suffix=("new",), layouts_per
             n = len(mk(probe))
             # large capacities: every case carries the whole contents; keep about 100 operations per layout
             ev = max(every, n // 100) if N > 1000 else every
+            if N in STEERED:
+                ev = 1 if N <= 1000 else max(1, n // 150)
             for k in range(n):
                 if ev > 1 and not r.chance(1, ev):
                     continue
